@@ -100,6 +100,9 @@ class DnsRecordDnskey(ParsableBase, Serializable):
             exponent_length = key_parser['exponent_length_two_octets']
         key_parser.parse_mpint('public_exponent', exponent_length)
         key_parser.parse_mpint('modulus', key_parser.unparsed_length)
+        for param_name in ('public_exponent', 'modulus'):
+            if key_parser[param_name] == 0:
+                raise InvalidValue(key_parser[param_name], cls, param_name)
 
         return PublicKey.from_params(PublicKeyParamsRsa(
             public_exponent=key_parser['public_exponent'],
@@ -152,6 +155,9 @@ class DnsRecordDnskey(ParsableBase, Serializable):
         key_parser.parse_mpint('p', mpint_length)
         key_parser.parse_mpint('g', mpint_length)
         key_parser.parse_mpint('y', mpint_length)
+        for param_name in ('q', 'p', 'g', 'y'):
+            if key_parser[param_name] == 0:
+                raise InvalidValue(key_parser[param_name], cls, param_name)
 
         return PublicKey.from_params(PublicKeyParamsDsa(
             prime=key_parser['p'],
